@@ -145,6 +145,17 @@ def _residual_text(ctx, fn, p):
         matched = next((e.extra for e in q.tests() if same(e.resolved, search)), None)
         if matched is None:
             matched = next((not e.extra for e in q.tests() if isinstance(e.resolved, ast.UnaryOp) and same(e.resolved.operand, search)), None)
+        if matched is None:
+            for e in q.tests():
+                r_ = e.resolved
+                if isinstance(r_, ast.Compare) and len(r_.ops) == 1 and same(r_.left, search) and isinstance(r_.comparators[0], ast.Constant) and r_.comparators[0].value is None:
+                    if isinstance(r_.ops[0], ast.Is):
+                        matched = not e.extra
+                    elif isinstance(r_.ops[0], ast.IsNot):
+                        matched = e.extra
+        if matched is None:
+            ctx.form(False, US, "AtomParser", "the outcome of the exponent search is tested on every path that goes on to the unit symbol", detail=[norm(e.resolved)[:60] for e in q.tests()][:4])
+            continue
         # subject of the table-suffix search
         T = comp = None
         for e in q.events:
